@@ -1,5 +1,212 @@
 /-
-C05 — property theorems (stub: no theorem stated yet, so no obligation is counted).
+C05 — BAM encoding round trip: Writer → Reader reproduces the header and every record field; the bytes written are
+those of the specification's layout; the Omit modes return the same records minus exactly the omitted parts.
+PROPERTY THEOREMS ONLY (helper lemmas live in Hts.Lemmas.Bam*).  Every statement quantifies over ALL records /
+record lists (no bound on any size); `WF nrefs r` is "the BAM format can represent r under a header with nrefs
+references" (Hts.Lemmas.BamWF).
 -/
+import Hts.Lemmas.BamStream
+import Hts.Lemmas.BamSpec
+import Hts.Lemmas.BamReadSpec
 namespace Hts.Props.C05
+open Hts.Model.Bam
+
+/-! ### one record -/
+
+/-- The writer accepts every representable record, and reading the bytes it wrote (from the front of any stream)
+returns the record equal in every field — name, reference and mate reference (index in the header), positions,
+MAPQ, flags, CIGAR, packed bases, qualities, every aux field byte for byte — `norm` only replacing absent qualities
+by the run of 0xff the reader represents them by. -/
+theorem decode_encode {n : Nat} {r : Record} (h : WF n r) :
+    ∃ bs, encodeRecord r = .ok bs ∧ ∀ rest, readRecord .none n (bs ++ rest) = .record (norm r) rest := by
+  obtain ⟨bs, hb, _, hr⟩ := readRecord_encodeRecord .none h
+  exact ⟨bs, hb, hr⟩
+
+/-- the same on the record buffer after the length prefix (what `Reader.Read` parses) -/
+theorem decode_encode_body {n : Nat} {r : Record} (h : WF n r) :
+    ∃ bs, encodeRecord r = .ok bs ∧ decodeBody .none n (bs.drop 4) = .ok (norm r) := by
+  obtain ⟨bin, _, he⟩ := encodeRecord_ok h
+  refine ⟨_, he, ?_⟩
+  have : (putI32 (recLen r (encAuxAll r.aux) : Int) ++ bodyOf bin (encAuxAll r.aux) r).drop 4
+      = bodyOf bin (encAuxAll r.aux) r := by
+    simp [List.drop_left' (putI32_length _)]
+  rw [this]
+  exact decodeBody_bodyOf .none n r bin h
+
+/-- `norm` changes nothing but absent qualities -/
+theorem norm_of_qual_present (r : Record) (q : List Byte) (h : r.qual = some q) : norm r = r := by
+  cases r; simp_all [norm, qualBytes]
+
+theorem norm_qual_absent (r : Record) (h : r.qual = none) :
+    norm r = { r with qual := some (List.replicate r.seqLen 0xff#8) } := by
+  cases r; simp_all [norm, qualBytes]
+
+/-- a CIGAR operation length always fits the 28 bits of the format (`CigarOp` is a uint32) -/
+theorem cigar_len_lt (c : BitVec 32) : cigarLen c < 2 ^ 28 := cigarLen_lt c
+
+/-! ### Omit modes -/
+
+/-- `Omit(AuxTags)`: the same record minus exactly the aux fields -/
+theorem omit_aux {n : Nat} {r : Record} (h : WF n r) :
+    ∃ bs, encodeRecord r = .ok bs ∧ ∀ rest, readRecord .aux n (bs ++ rest) = .record (omitAux (norm r)) rest := by
+  obtain ⟨bs, hb, _, hr⟩ := readRecord_encodeRecord .aux h
+  exact ⟨bs, hb, hr⟩
+
+/-- `Omit(AllVariableLengthData)`: the same record minus exactly sequence, qualities and aux fields -/
+theorem omit_all {n : Nat} {r : Record} (h : WF n r) :
+    ∃ bs, encodeRecord r = .ok bs ∧ ∀ rest, readRecord .all n (bs ++ rest) = .record (omitAll (norm r)) rest := by
+  obtain ⟨bs, hb, _, hr⟩ := readRecord_encodeRecord .all h
+  exact ⟨bs, hb, hr⟩
+
+/-! ### the bytes are the specification's -/
+
+/-- The bytes written are `Spec.layout` (SAMv1 §4.2, written independently) of the record's semantic reading `view`
+(CIGAR as (length, op), one 4-bit code per base, typed aux values), the bin field being the value the writer computed
+(its correctness is C16). `padOK`: the unused nibble of an odd-length sequence is zero, as `sam.NewSeq` makes it. -/
+theorem encode_is_spec {n : Nat} {r : Record} (h : WF n r) (hp : padOK r.seqLen r.seq = true) :
+    ∃ bin a, recordBin r = .ok bin ∧ view bin r = some a ∧ encodeRecord r = .ok (Hts.Spec.Bam.layout a) :=
+  encodeRecord_is_layout h hp
+
+/-- "ignoring only the bin field": for ANY value `b` of the bin field, the written bytes agree with the
+specification's layout of the reading with that bin everywhere except at offsets 14 and 15 -/
+theorem encode_is_spec_except_bin {n : Nat} {r : Record} (h : WF n r) (hp : padOK r.seqLen r.seq = true) (b : Nat) :
+    ∃ bs a pre post x y, encodeRecord r = .ok bs ∧ view b r = some a ∧ pre.length = 14 ∧
+      bs = pre ++ [x, y] ++ post ∧ Hts.Spec.Bam.layout a = pre ++ Hts.Spec.Bam.le 2 b ++ post := by
+  obtain ⟨bin, a, _, ha, he⟩ := encodeRecord_is_layout h hp
+  obtain ⟨pre, post, hl, h1, h2⟩ := layout_except_bin a b
+  have hv : view b r = some { a with bin := b } := by
+    simp only [view] at ha ⊢
+    split at ha
+    · rename_i cs aux hc hx
+      simp only [Option.some.injEq] at ha
+      subst ha
+      simp [hc, hx]
+    · cases ha
+  refine ⟨_, _, pre, post, BitVec.ofNat 8 (a.bin % 256), BitVec.ofNat 8 (a.bin / 256 % 256), he, hv, hl, ?_, h2⟩
+  rw [h1]
+  rfl
+
+/-- `sam.NewSeq` (contract) packs the letters as the specification says, and its result satisfies the sequence
+clauses of `WF` and `padOK` -/
+theorem newSeq_is_spec (s : List Byte) :
+    contract s = Hts.Spec.Bam.packSeq (s.map n16) ∧ (contract s).length = (s.length + 1) / 2 ∧
+      padOK s.length (contract s) = true :=
+  ⟨contract_eq_packSeq s, contract_length s, contract_padOK s⟩
+
+/-- READER vs SPECIFICATION (independent of the writer): for every alignment the format can represent, reading
+`Spec.layout` of it — whoever produced those bytes, whatever its bin field holds — returns the record that stands for
+the alignment (`ofAlignment`: packed bases, CIGAR words, raw aux fields), under every Omit mode. -/
+theorem reader_accepts_spec (om : Omit) {n : Nat} {a : Hts.Spec.Bam.Alignment} (h : a.Valid n) (rest : List Byte) :
+    readRecord om n (Hts.Spec.Bam.layout a ++ rest) = .record (expected om (ofAlignment a)) rest :=
+  readRecord_layout om h rest
+
+/-- ... and that record is one the writer accepts (`WF`), so the two directions compose -/
+theorem ofAlignment_wf {n : Nat} {a : Hts.Spec.Bam.Alignment} (h : a.Valid n) : WF n (ofAlignment a) :=
+  wf_ofAlignment h
+
+/-! ### the stream -/
+
+/-- For every list of representable records, every `Write` succeeds and reading the concatenation of what was
+written returns the records in order, then io.EOF (`none`) — by induction over the list with the length-prefix
+lemma. Stated for all three Omit modes (`expected .none = norm`). -/
+theorem stream_roundtrip (om : Omit) {n : Nat} (rs : List Record) (h : ∀ r ∈ rs, WF n r) :
+    ∃ s, encodeAll rs = .ok s ∧ readAll om n s = (rs.map (expected om), none) :=
+  readAll_encodeAll om rs h
+
+theorem stream_roundtrip_none {n : Nat} (rs : List Record) (h : ∀ r ∈ rs, WF n r) :
+    ∃ s, encodeAll rs = .ok s ∧ readAll .none n s = (rs.map norm, none) :=
+  readAll_encodeAll .none rs h
+
+/-- The whole file, for every header: the header codec is a parameter with its round-trip law (C07); the header read
+back is the header written and the records follow in order, then io.EOF. -/
+theorem file_roundtrip {H : Type} (hc : HeaderCodec H) (om : Omit) (hd : H) (rs : List Record)
+    (h : ∀ r ∈ rs, WF (hc.nrefs hd) r) :
+    ∃ bytes, writeFile hc hd rs = .ok bytes ∧ readFile hc om bytes = some (hd, rs.map (expected om), none) :=
+  readFile_writeFile hc om hd rs h
+
+/-- ... and under the BGZF layer, for every write concurrency `wc` and read concurrency `rd` (the BGZF codec is a
+parameter with its round-trip law, C01) -/
+theorem file_roundtrip_bgzf {H : Type} (bg : BgzfCodec) (hc : HeaderCodec H) (om : Omit) (wc rd : Nat) (hd : H)
+    (rs : List Record) (h : ∀ r ∈ rs, WF (hc.nrefs hd) r) :
+    ∃ bytes, writeFile hc hd rs = .ok bytes ∧
+      (bg.read rd (bg.write wc bytes)).bind (readFile hc om) = some (hd, rs.map (expected om), none) :=
+  readFile_writeFile_bgzf bg hc om wc rd hd rs h
+
+/-- no two representable records that differ in anything but "absent vs all-0xff qualities" are written as the same
+bytes -/
+theorem encode_injective {n : Nat} {r₁ r₂ : Record} (h₁ : WF n r₁) (h₂ : WF n r₂)
+    (he : encodeRecord r₁ = encodeRecord r₂) : norm r₁ = norm r₂ := by
+  obtain ⟨b₁, e₁, d₁⟩ := decode_encode h₁
+  obtain ⟨b₂, e₂, d₂⟩ := decode_encode h₂
+  rw [e₁, e₂] at he
+  cases he
+  have := (d₁ []).symm.trans (d₂ [])
+  simp only [ReadResult.record.injEq, and_true] at this
+  exact this
+
+/-! ### the writer's rejections and the model's fuel -/
+
+theorem write_rejects_name (r : Record) (h : r.name.length = 0 ∨ 254 < r.name.length) :
+    encodeRecord r = .error .errNameLen := by
+  unfold encodeRecord
+  have : (r.name.length == 0 || decide (r.name.length > 254)) = true := by
+    rcases h with h | h <;> simp [h]
+  simp [this]
+
+/-- the loops of the model never run out of fuel: `Fault.fuel` is not an outcome of any read -/
+theorem fuel_unreachable (om : Omit) (n : Nat) (s : List Byte) :
+    (readAll om n s).2 ≠ some .fuel ∧ readRecord om n s ≠ .fault .fuel ∧ parseAux s ≠ .error .fuel :=
+  ⟨readAll_ne_fuel om n s, readRecord_ne_fuel om n s, parseAux_ne_fuel s⟩
+
+/-! ### non-vacuity: a concrete non-trivial record is well-formed, and what the theorems say about it -/
+
+/-- name "r1", on reference 0 at 100, mate on reference 1, 3M1I, 5 bases (odd), qualities absent, aux fields
+`XA:Z:hi`, `NM:C:5`, `XB:B:s,1,-2,3`, `XE:B:f` (empty array), `XH:H:1AE3` -/
+def sample : Record :=
+  { name := [114#8, 49#8], ref := some 0, pos := 100, mapq := 30#8, cigar := [0x30#32, 0x11#32], flags := 0x63#16,
+    mateRef := some 1, matePos := 250, tempLen := -154, seqLen := 5, seq := [0x12#8, 0x48#8, 0xf0#8], qual := none,
+    aux := [[88#8, 65#8, 90#8, 104#8, 105#8], [78#8, 77#8, 67#8, 5#8],
+            [88#8, 66#8, 66#8, 115#8, 3#8, 0#8, 0#8, 0#8, 1#8, 0#8, 0xfe#8, 0xff#8, 3#8, 0#8],
+            [88#8, 69#8, 66#8, 102#8, 0#8, 0#8, 0#8, 0#8],
+            [88#8, 72#8, 72#8, 49#8, 65#8, 69#8, 51#8]] }
+
+example : WF 2 sample :=
+  { nrefs_ok := by decide, name_len := by decide, name_nonul := by decide, ref_ok := by simp [sample],
+    mate_ok := by simp [sample], pos_ok := by decide, matePos_ok := by decide, tempLen_ok := by decide,
+    cigar_count := by decide, cigar_ops := by simp [sample, cigarType], seq_len := by decide,
+    qual_len := by simp [sample],
+    aux_ok := by
+      simp only [sample, List.mem_cons, List.not_mem_nil, or_false, forall_eq_or_imp, forall_eq]
+      refine ⟨?_, ?_, ?_, ?_, ?_⟩ <;> rfl,
+    size_ok := by decide +kernel }
+example : padOK sample.seqLen sample.seq = true := by rfl
+example : (encodeRecord sample).toOption.map List.length = some 95 := by rfl
+example : (match encodeRecord sample with | .ok bs => readAll .none 2 (bs ++ bs) | .error _ => ([], none))
+    = ([norm sample, norm sample], none) := by decide +kernel
+example : (norm sample).qual = some [0xff#8, 0xff#8, 0xff#8, 0xff#8, 0xff#8] := by rfl
+/-- a non-trivial alignment the format can represent: 3M1I, bases "ACGTN", aux `NM:C:5`, `XA:Z:hi`, `XB:B:s,1,-2` -/
+def sampleAln : Hts.Spec.Bam.Alignment :=
+  { refID := 0, pos := 100, mapq := 30, bin := 4681, flag := 99, nextRefID := 1, nextPos := 250, tlen := -154,
+    readName := [114#8, 49#8], cigar := [(3, 0), (1, 1)], seq := [1, 2, 4, 8, 15], qual := none,
+    aux := [((78#8, 77#8), .num .C 5), ((88#8, 65#8), .str [104#8, 105#8]), ((88#8, 66#8), .arr .s [1, -2])] }
+
+example : sampleAln.Valid 2 :=
+  { nrefs_lt := by decide, refID := by decide, nextRefID := by decide, pos := by decide, nextPos := by decide,
+    tlen := by decide, mapq := by decide, flag := by decide, name := by decide,
+    cigar := by simp [sampleAln], seq := by simp [sampleAln], qual := by simp [sampleAln],
+    aux := by
+      simp only [sampleAln, List.mem_cons, List.not_mem_nil, or_false, forall_eq_or_imp, forall_eq]
+      refine ⟨⟨?_, by decide, by decide⟩, ⟨?_, by decide, by decide⟩, ⟨?_, by decide, by decide⟩⟩
+      · simp [Hts.Spec.Bam.AuxValue.Valid, Hts.Spec.Bam.Elem.inRange, Hts.Spec.Bam.Elem.signed, Hts.Spec.Bam.Elem.width]
+      · simp [Hts.Spec.Bam.AuxValue.Valid]
+      · simp [Hts.Spec.Bam.AuxValue.Valid, Hts.Spec.Bam.Elem.inRange, Hts.Spec.Bam.Elem.signed, Hts.Spec.Bam.Elem.width],
+    size := by decide +kernel }
+
+/-- what the model says the code does on inputs outside `WF` (checked against the implementation by the harness):
+a CIGAR op code 11 makes the writer panic (defect #8), a `B` array with sub-type `Z` and count 8 never terminates,
+a `B` header cut short panics (defect #13) -/
+example : encodeRecord { sample with cigar := [0x3b#32] } = .error .panicConsume := by rfl
+example : parseAux [88#8, 89#8, 66#8, 90#8, 8#8, 0#8, 0#8, 0#8] = .error .hangAuxArray := by rfl
+example : parseAux [88#8, 89#8, 66#8] = .error .panicAuxArray := by rfl
+
 end Hts.Props.C05
